@@ -278,3 +278,136 @@ pub fn run_c14(args: &Args, rep: &mut Report) {
         }
     }
 }
+
+/// C05 under a one-shot fault on a data transfer: `File::write` allocates a cluster and then moves the payload. If that
+/// transfer fails the call fails, but the cluster must stay reachable through the file, so that closing and removing
+/// the file (with or without a successful retry in between) gives every cluster back. Faults on metadata writes are
+/// not judged (an interrupted table update may legitimately strand a cluster).
+pub fn run_c05(args: &Args, rep: &mut Report) {
+    let (shard, nshards) = args.shard();
+    let mut n = 0u64;
+    for vc in vols() {
+        let Ok((img0, _)) = make_volume(&vc) else { continue };
+        let g = fatck::geo_of(&img0).unwrap();
+        let cs = g.cluster_size as usize;
+        let r = DirRef::Root;
+        // (name, operations before the target write, target write length, retry after the failure?)
+        let cases: Vec<(&str, Vec<Op>, usize, bool)> = vec![
+            ("first-cluster", vec![], 100, false),
+            ("first-cluster-retry", vec![], 100, true),
+            ("second-cluster", vec![Op::Write { h: 0, len: cs }], cs, false),
+            ("second-cluster-retry", vec![Op::Write { h: 0, len: cs }], 7, true),
+            ("after-truncate-to-zero", vec![Op::Write { h: 0, len: cs + 3 }, Op::Seek { h: 0, whence: 0, off: 0 }, Op::Truncate { h: 0 }], cs, true),
+            ("in-subdirectory", vec![], cs, false),
+        ];
+        for (ci, (cname, pre, len, retry)) in cases.iter().enumerate() {
+            let path = if *cname == "in-subdirectory" { "sub dir/leak candidate.bin" } else { "leak candidate.bin" };
+            for k in 1..=12u64 {
+                n += 1;
+                if n % nshards != shard {
+                    continue;
+                }
+                let dev = MonDev::new(img0.clone());
+                dev.set_logging(false, false);
+                dev.set_budget(Some(5_000_000));
+                let clock = Clock::new(60);
+                let model = Model::new(true, 4);
+                let res = catch_unwind(AssertUnwindSafe(|| -> Result<Option<String>, String> {
+                    let fs: Fs = fatfs::FileSystem::new(dev.handle(), fatfs::FsOptions::new().time_provider(clock.clone())).map_err(|e| format!("mount: {:?}", e))?;
+                    let mut hs: Vec<Option<H<'_>>> = (0..4).map(|_| None).collect();
+                    let mut step = 0u64;
+                    macro_rules! run {
+                        ($op:expr, $hs:expr) => {{
+                            step += 1;
+                            exec(&fs, $hs, $op, step, &model)
+                        }};
+                    }
+                    if *cname == "in-subdirectory" {
+                        let o = run!(&Op::CreateDir { dir: r.clone(), path: "sub dir".into(), slot: None }, &mut hs);
+                        if o.ek.is_some() {
+                            return Err("setup create_dir failed".into());
+                        }
+                    }
+                    let o = run!(&Op::CreateFile { dir: r.clone(), path: path.into(), slot: Some(0) }, &mut hs);
+                    if o.ek.is_some() {
+                        return Err("setup create_file failed".into());
+                    }
+                    let o = run!(&Op::Flush { h: 0 }, &mut hs);
+                    if o.ek.is_some() {
+                        return Err("setup flush failed".into());
+                    }
+                    // free entries of the table while the file exists and is empty
+                    let base = fatck::decode(&dev.snapshot(), &fatck::DecodeOpts::default()).map_err(|e| format!("decode: {}", e))?.free_count;
+                    for op in pre {
+                        if run!(op, &mut hs).ek.is_some() {
+                            return Err(format!("setup {} failed", op.show()));
+                        }
+                    }
+                    dev.begin_call();
+                    dev.set_fault(Some(FaultPlan { k, kinds: EvKind::Write.bit(), code: 0xC05 }));
+                    let o = run!(&Op::Write { h: 0, len: *len }, &mut hs);
+                    let fired = dev.fired();
+                    dev.set_fault(None);
+                    let Some(fired) = fired else { return Ok(None) };
+                    // only payload transfers are judged
+                    if !matches!(g.region(fired.off), Region::Data(_)) || o.ek.is_none() {
+                        return Ok(None);
+                    }
+                    dev.begin_call();
+                    if *retry {
+                        let o2 = run!(&Op::Write { h: 0, len: *len }, &mut hs);
+                        if o2.ek.is_some() {
+                            return Ok(None);
+                        }
+                    }
+                    if run!(&Op::Close { h: 0 }, &mut hs).ek.is_some() {
+                        return Ok(None);
+                    }
+                    let o3 = run!(&Op::Remove { dir: r.clone(), path: path.into() }, &mut hs);
+                    if o3.ek.is_some() {
+                        return Ok(Some(format!("removing the file afterwards failed with {:?}", o3.ek.map(|e| e.name()))));
+                    }
+                    drop(hs);
+                    fs.unmount().map_err(|e| format!("unmount: {:?}", e))?;
+                    let dec = fatck::decode(&dev.snapshot(), &fatck::DecodeOpts::default()).map_err(|e| format!("decode: {}", e))?;
+                    if dec.free_count != base {
+                        return Ok(Some(format!("{} clusters were free while the file was empty, {} are free after it was removed", base, dec.free_count)));
+                    }
+                    if let Some(d) = dec.diags.iter().find(|d| d.code == "I3-lost") {
+                        return Ok(Some(format!("lost clusters after the file was removed: {}", d.msg)));
+                    }
+                    Ok(Some(String::new()))
+                }));
+                let mut h = Fnv::new();
+                h.str(&vc.class()).u64(ci as u64).u64(k);
+                match res {
+                    Ok(Ok(None)) => rep.count("outcome:payload-fault:not-applicable", 1),
+                    Ok(Ok(Some(why))) if why.is_empty() => {
+                        rep.evaluations += 1;
+                        rep.distinct.insert(h.get());
+                        rep.count("outcome:payload-fault:all-clusters-returned", 1);
+                    }
+                    Ok(Ok(Some(why))) => {
+                        rep.evaluations += 1;
+                        rep.distinct.insert(h.get());
+                        let d = format!("[{} / {}] the payload transfer of a write failed once (device write #{} of the call){}, the file was closed and removed: {}", vc.label(), cname, k, if *retry { ", the write was retried successfully" } else { "" }, why);
+                        let rj = J::obj().set("argv", J::arr_of_str(vec!["c05fault".to_string()])).set("variant", J::s(crate::modes::sessmode::variant_name())).set("volume", vc.json()).set("case", J::s(*cname)).set("k", J::u(k)).set("detail", J::s(d.clone()));
+                        rep.viol("C05", &format!("C05|cluster-leak-after-failed-transfer|{}", cname), "cluster-leak-after-failed-transfer", &d, rj);
+                    }
+                    Ok(Err(e)) => {
+                        if rep.inconclusive.len() < 3 {
+                            rep.inconclusive.push(format!("c05 fault variant setup: {}", e));
+                        }
+                    }
+                    Err(_) => {
+                        let (cls, full) = take_panic();
+                        if !cls.contains("BUDGET") {
+                            let d = format!("write with a failing payload transfer panicked: {}", full);
+                            rep.viol("C05", &format!("C05|panic-after-fault|{}", cls), "panic", &d, J::obj().set("argv", J::arr_of_str(vec!["c05fault"])).set("detail", J::s(d.clone())));
+                        }
+                    }
+                }
+            }
+        }
+    }
+}
